@@ -194,6 +194,7 @@ static QMode qmodeOf(const std::string & m)
 	else if(m == "c10") { r.structural = true; r.nq = 3; r.pAct = 15; r.minOps = 40; r.maxOps = 120; }
 	else if(m == "c08") { r.structural = true; r.nq = 2; r.pAct = 35; r.minOps = 100; r.maxOps = 300; }
 	else if(m == "c13") { r.pAct = 35; }
+	else if(m == "c20") { r.structural = true; r.nq = 2; r.pAct = 30; r.minOps = 40; r.maxOps = 120; }
 	return r;
 }
 static const unsigned char kPrefill[4] = { 0x00, 0xFF, 0xA5, 0x5C };
@@ -229,8 +230,10 @@ struct World : CallbackSink
 
 	Q & Qat(int i) { return *reinterpret_cast<Q *>(slots[i].buf); }
 	void prefill(int i, unsigned pat) {
+		static const bool noPrefill = ctx().optInt("noprefill", 0) != 0; // memcheck runs: leave the storage undefined
+		if(noPrefill) { if(pat >= 4) rng.next(); return; }
 		if(pat < 4) memset(slots[i].buf, kPrefill[pat], sizeof(Q));
-		else for(size_t k = 0; k < sizeof(Q); ++k) slots[i].buf[k] = (unsigned char)rng.below(256);
+		else { Rng fill(rng.next()); for(size_t k = 0; k < sizeof(Q); ++k) slots[i].buf[k] = (unsigned char)fill.below(256); } // one draw: the object size must not influence the program
 	}
 	void destroyQ(int i) { if(alive[i]) { Qat(i).~Q(); alive[i] = false; } }
 
@@ -828,7 +831,7 @@ struct World : CallbackSink
 static uint64_t gTraceXor = 0;
 
 template <typename Cfg>
-static void runCfg(const QMode & mode, Rng & rng, uint64_t caseNo, int cfgIndex)
+static uint64_t runCfg(const QMode & mode, Rng & rng, uint64_t caseNo, int cfgIndex)
 {
 	ledger().resetCase();
 	const int nops = rng.range(mode.minOps, mode.maxOps);
@@ -849,6 +852,7 @@ static void runCfg(const QMode & mode, Rng & rng, uint64_t caseNo, int cfgIndex)
 	if(nontrivial) markNontrivial(f.h);
 	gTraceXor ^= mix(h, caseNo);
 	if(wantSample() && nontrivial) addSample("{\"case\":" + unum(caseNo) + ",\"history\":" + oplogJson(ctx().oplog, 70) + "}");
+	return h;
 }
 
 template <bool Enabled, typename Cfg>
@@ -861,10 +865,49 @@ enum { NCFG = 7 };
 #ifndef VF_CFG_MASK
 #define VF_CFG_MASK 0x7f
 #endif
+// C20: the same program under a family that differs only in policies.  hasWait = 0 for every member so that the
+// generated operations are the same (waitFor does not compile for the single-threaded and SpinLock policies).
+#if (VF_CFG_MASK >> 7) & 1
+template <typename Policies>
+struct FamQ : QC0
+{
+	enum { hasWait = 0 };
+	typedef eventpp::EventQueue<int, void(int, const TPayload &), Policies> Q;
+	static const char * name() { return "EventQueue<int,void(int,const TPayload&)> policy family member"; }
+	static void enqueue(Q & q, int k, int eid, int, uint32_t form) {
+		if(form % 3 == 0) { TPayload p(eid); int kk = KI(k); q.enqueue(kk, p); }
+		else if(form % 3 == 1) q.enqueue(KI(k), TPayload(eid));
+		else { const TPayload p(eid); const int kk = KI(k); q.enqueue(kk, p); }
+	}
+	static void dispatch(Q & q, int k, int eid, int) { TPayload p(eid); q.dispatch(KI(k), p); }
+	static void queued(const typename Q::QueuedEvent & e, ArgPack & p) { if(e.event != std::get<0>(e.arguments)) p.push(-99); p.push(std::get<0>(e.arguments)); p.push(fpOf(std::get<1>(e.arguments))); }
+};
+template <typename K, typename V> using FPlainMap = std::map<K, V>;
+struct FPolMapCb { template <typename K, typename V> using Map = FPlainMap<K, V>; typedef TCallback Callback; };
+struct FPolInclude { typedef eventpp::ArgumentPassingIncludeEvent ArgumentPassingMode; typedef eventpp::SingleThreading Threading; };
+static void runFamily(const QMode & mode, uint64_t caseNo)
+{
+	const uint64_t seed = ctx().curSeed;
+	uint64_t h[5];
+	{ Rng r(seed); h[0] = runCfg<FamQ<eventpp::DefaultPolicies> >(mode, r, caseNo, 100); }
+	{ Rng r(seed); h[1] = runCfg<FamQ<PolSingle> >(mode, r, caseNo, 101); }
+	{ Rng r(seed); h[2] = runCfg<FamQ<PolSpin> >(mode, r, caseNo, 102); }
+	{ Rng r(seed); h[3] = runCfg<FamQ<FPolMapCb> >(mode, r, caseNo, 103); }
+	{ Rng r(seed); h[4] = runCfg<FamQ<FPolInclude> >(mode, r, caseNo, 104); }
+	static const char * names[] = { "default(std::mutex,unordered_map,std::function,auto-detect)", "SingleThreading", "SpinLock", "std::map+custom callback", "IncludeEvent+SingleThreading" };
+	for(int i = 1; i < 5 && ! caseHasViolation(); ++i)
+		if(h[i] != h[0]) violation(std::string("c20:trace-differs-between-policies:") + names[i], std::string("the same generated program produced a different observable trace under ") + names[i] + " than under " + names[0]);
+	count("family_programs");
+	count("family_runs", 5);
+}
+#else
+static void runFamily(const QMode &, uint64_t) { --ctx().casesRun; }
+#endif
 
 static void runCase(uint64_t caseNo, Rng & rng)
 {
 	static QMode mode = qmodeOf(ctx().mode);
+	if(ctx().mode == "c20") { runFamily(mode, caseNo); return; }
 	long long only = ctx().optInt("cfg", -1);
 	int cfg;
 	if(only >= 0) cfg = (int)only;
